@@ -555,7 +555,7 @@ func truncLogCase(w *W, idx, k int) {
 
 func truncPlan(tier string) []Plan {
 	if tier == "thorough" {
-		return []Plan{{Cases: 64 + 32, Workers: 16, MaxProcs: 1, Timeout: 60 * time.Minute}}
+		return []Plan{{Cases: 256 + 128, Workers: 16, MaxProcs: 1, Timeout: 120 * time.Minute}}
 	}
 	return []Plan{{Cases: 16 + 16, Workers: 16, MaxProcs: 1, Timeout: 20 * time.Minute}}
 }
@@ -563,7 +563,7 @@ func truncPlan(tier string) []Plan {
 func truncRun(w *W, phase, idx int) {
 	nsnap := 16
 	if w.Thorough() {
-		nsnap = 64
+		nsnap = 256
 	}
 	if idx < nsnap {
 		defer func() {
